@@ -316,7 +316,7 @@ def widest_jobs(d, fam, maxw, workers):
     consts = {"NN": f["NN"], "MaxW": maxw}
     m1, c1 = _mc(d, "wp_%s_w%d" % (fam, maxw), "WidestPath", _fam_defs(f),
                  dict(consts, Emit="FALSE", ShardK=0, ShardM=1),
-                 invariants=WP_INVS, properties=["VisitedFrozen"])
+                 invariants=WP_INVS, properties=["VisitedFrozen"], check_deadlock=True)
     lab = "%s W<=%d" % (fam, maxw)
     ngraphs = (maxw + 1) ** len(f["edges"])
     shards = max(1, min(8, ngraphs // 8000))
@@ -328,7 +328,7 @@ def widest_jobs(d, fam, maxw, workers):
                           workers=1, timeout=3000, java_opts=("-Xmx2g",)))
     # per-action coverage costs ~40% of TLC's time: collected on all but the largest runs
     return (dict(module=m1, cfg=c1, cwd=d, label="WidestPath exhaustive " + lab, workers=workers,
-                 coverage=(ngraphs < 15000), timeout=3000, java_opts=("-Xmx2g",)), emits)
+                 coverage=(ngraphs < 15000), timeout=3000, java_opts=("-Xmx2g",), deadlock=True), emits)
 
 
 def paths_job(d, fam, kind, maxw, schemes, nps, cuts, workers, invariants, tag="", **kw):
@@ -339,11 +339,14 @@ def paths_job(d, fam, kind, maxw, schemes, nps, cuts, workers, invariants, tag="
     defs["Cutoffs"] = core.tla_lit(set(cuts))
     consts = {"NN": f["NN"], "MaxW": maxw, "Family": json.dumps(kind)}
     name = "p%s_%s_%s_w%d_%d" % (tag, fam, kind, maxw, len(nps) * len(cuts) * len(schemes))
-    m, c = _mc(d, name, "Paths", defs, consts, invariants=invariants)
+    sim = "simulate" in kw
+    m, c = _mc(d, name, "Paths", defs, consts, invariants=invariants, check_deadlock=not sim,
+               next_="Step" if sim else "Next")
     lab = "Paths %s %s/%s W<=%d schemes=%s num_paths=%s cutoffs=%s" % (
         tag or "exhaustive", fam, kind, maxw, "+".join(schemes),
         ["inf" if v == NONE else v for v in nps], ["%d/%d" % c_ for c_ in cuts])
-    j = dict(module=m, cfg=c, cwd=d, label=lab, workers=workers, timeout=3000, java_opts=("-Xmx2g",))
+    j = dict(module=m, cfg=c, cwd=d, label=lab, workers=workers, timeout=3000, java_opts=("-Xmx2g",),
+             deadlock=not sim)
     j.update(kw)
     return j
 
@@ -477,6 +480,10 @@ def run(ctx):
 
         # ---- pattern A: every emitted graph into the real top_path
         jobs = []
+        allruns = [(s, n_, cu[0], cu[1]) for s in BOTH for n_ in ALL_NP for cu in ALL_CUT]
+        for fx in FIXED:
+            jobs.append(dict(W=fx["W"], scale=fx["scale"], srcs=fx["srcs"], snks=fx["snks"],
+                             family="fixed-" + fx["name"], runs=allruns, forms=("f64-F", "f32", "view")))
         for (fam, w, _), futs in zip(plan["widest"], emit_f):
             cases = []
             for fut in futs:
@@ -507,10 +514,6 @@ def run(ctx):
                         for cu in (ALL_CUT if full else [(1, 1)])]
                 jobs.append(dict(W=c["W"], scale=1, srcs=c["srcs"], snks=c["snks"], family=fam, runs=runs,
                                  forms=("f64-F", "i64", "f32", "view") if k % 16 == 0 else ()))
-        allruns = [(s, n_, cu[0], cu[1]) for s in BOTH for n_ in ALL_NP for cu in ALL_CUT]
-        for fx in FIXED:
-            jobs.append(dict(W=fx["W"], scale=fx["scale"], srcs=fx["srcs"], snks=fx["snks"],
-                             family="fixed-" + fx["name"], runs=allruns, forms=("f64-F", "f32", "view")))
         for rc in random_cases(ctx.seed, plan["random"]):
             jobs.append(dict(rc, runs=allruns, forms=("f64-F", "f32")))
 
@@ -560,6 +563,13 @@ def run(ctx):
         for job, expect_ok, fut in submitted:
             r = fut.result()
             dbg("%s: %.1fs, %d distinct" % (job.get("label"), r.wall, r.distinct))
+            if "simulate" in job:
+                import re
+                m1 = re.search(r"(\d+) states checked, (\d+) traces generated", r.stdout)
+                if m1:
+                    ctx.notes.setdefault("simulation_runs", []).append(
+                        {"label": job.get("label"), "states_checked": int(m1.group(1)), "behaviours": int(m1.group(2))})
+                    ctx.transitions += int(m1.group(1))
             ctx._account(r, job["module"], job["cfg"], job.get("label"), expect_ok)
         # design-level counterexamples that TLC must reproduce
         for inv, key, job, fut in expect_f:
@@ -577,7 +587,7 @@ def run(ctx):
             cov = run_.get("coverage") or {}
             if "exhaustive" in run_["label"] and cov:
                 # Gen is the sampling step of the simulation-only families
-                dead = [a for a, n_ in cov.items() if n_ == 0 and a[0].isupper() and a != "Gen"]
+                dead = [a for a, n_ in cov.items() if n_ == 0 and a[0].isupper() and a not in ("Gen", "Stutter")]
                 if dead:
                     raise core.MachineryError("vacuous run %s: actions never fired: %s" % (run_["label"], dead))
         ctx.exhaustive = True
